@@ -51,29 +51,39 @@ for _v in ("I", "II", "III"):
 # ============================================================================ InteractingNetworks: cross-link null models (static)
 _IN = "core/interacting_networks.py"
 # kernel(A, cross_A, number_cross_links, nodes1, nodes2, m, n)
-# assumed: shape(A,1)==shape(A,0) (A_new = network.adjacency.astype(ADJ): `.astype` is not modelled; Network.adjacency is
-#   square by its setter); node indices inside [0, shape(A,0)), pairwise distinct, the two lists disjoint, m>=1, n>=1
+# region requires: Network.adjacency (setter) rejects non-square input
+# NumPy semantics assumed for ndarray.astype: the result has the shape of the receiver
+# assumed: node indices inside [0, shape(A,0)), pairwise distinct, the two lists disjoint, m>=1, n>=1
 #   (node_list1 / node_list2 are handed in by the caller and never checked)
-_uses("InteractingNetworks.RandomlySetCrossLinks[uses]", _IN, "InteractingNetworks.RandomlySetCrossLinks", ("C17", "C20"),
-      {"nodes1": "arr:int32:1", "nodes2": "arr:int32:1", "cross_A": "arr:int8:2"}, [],
-      {"_randomlySetCrossLinks": ["len(arg3)==arg5 and len(arg4)==arg6", "arg5>=0 and arg6>=0", "len(arg1)==arg5",
-                                  "shape(arg1,0)==arg5 and shape(arg1,1)==arg6",
-                                  # stronger than the kernel's `binary`: the matrix handed over is empty
-                                  "all(arg1[i,j]==0 for i in range(arg5) for j in range(arg6))",
-                                  "all(arg3[i]==nodes1[i] for i in range(arg5)) and all(arg4[j]==nodes2[j] for j in range(arg6))"]})
+_ASTYPE = {"network.adjacency.astype": {"returns": "arr:int8:2", "ensures": [
+    "shape(result,0)==shape(network.adjacency,0) and shape(result,1)==shape(network.adjacency,1)"]}}
+_c = _uses("InteractingNetworks.RandomlySetCrossLinks[uses]", _IN, "InteractingNetworks.RandomlySetCrossLinks", ("C17", "C20"),
+           {"nodes1": "arr:int32:1", "nodes2": "arr:int32:1", "cross_A": "arr:int8:2", "network.adjacency": "arr:int16:2"},
+           ["shape(network.adjacency,0)==shape(network.adjacency,1)"],
+           {"_randomlySetCrossLinks": ["len(arg3)==arg5 and len(arg4)==arg6", "arg5>=0 and arg6>=0", "len(arg1)==arg5",
+                                       "len(arg0)==len(network.adjacency)", "shape(arg0,1)==shape(arg0,0)",
+                                       "shape(arg1,0)==arg5 and shape(arg1,1)==arg6",
+                                       # stronger than the kernel's `binary`: the matrix handed over is empty
+                                       "all(arg1[i,j]==0 for i in range(arg5) for j in range(arg6))",
+                                       "all(arg3[i]==nodes1[i] for i in range(arg5)) and all(arg4[j]==nodes2[j] for j in range(arg6))"]})
+_c.call_facts = dict(_ASTYPE)
 
 # kernel(A, cross_A, cross_links, nodes1, nodes2, number_cross_links, number_swaps)
-# assumed: everything about shapes - shape(A,1)==shape(A,0) (`.astype` not modelled), shape(cross_A)==(len(nodes1),len(nodes2))
+# assumed: shape(cross_A)==(len(nodes1),len(nodes2))
 #   (result of network.cross_adjacency on the *lists*; the arrays nodes1/nodes2 are built separately from the same lists),
 #   cross_links is the table of the non-zero entries of cross_A with number_cross_links rows (np.array(cross_A.nonzero()).T),
 #   number_cross_links>=1, node index ranges / distinctness / disjointness (caller's lists).
-# What is proved: the kernel is called exactly once and gets cross_A, nodes1, nodes2 in this order.
-_uses("InteractingNetworks.RandomlyRewireCrossLinks[uses]", _IN, "InteractingNetworks.RandomlyRewireCrossLinks", ("C17", "C20"),
-      {"nodes1": "arr:int32:1", "nodes2": "arr:int32:1", "cross_A": "arr:int8:2", "swaps": "float"}, [],
-      {"_randomlyRewireCrossLinks": ["len(arg3)==len(nodes1) and len(arg4)==len(nodes2)", "len(arg1)==len(cross_A)",
-                                     "shape(arg1,1)==shape(cross_A,1)",
-                                     "all(arg3[i]==nodes1[i] for i in range(len(nodes1))) and all(arg4[j]==nodes2[j] for j in range(len(nodes2)))",
-                                     "all(arg1[i,j]==cross_A[i,j] for i in range(shape(cross_A,0)) for j in range(shape(cross_A,1)))"]})
+# What is proved: A is square; the kernel is called exactly once and gets cross_A, nodes1, nodes2 in this order.
+_c = _uses("InteractingNetworks.RandomlyRewireCrossLinks[uses]", _IN, "InteractingNetworks.RandomlyRewireCrossLinks", ("C17", "C20"),
+           {"nodes1": "arr:int32:1", "nodes2": "arr:int32:1", "cross_A": "arr:int8:2", "swaps": "float",
+            "network.adjacency": "arr:int16:2"},
+           ["shape(network.adjacency,0)==shape(network.adjacency,1)"],
+           {"_randomlyRewireCrossLinks": [
+               "len(arg3)==len(nodes1) and len(arg4)==len(nodes2)", "len(arg1)==len(cross_A)",
+               "len(arg0)==len(network.adjacency)", "shape(arg0,1)==shape(arg0,0)", "shape(arg1,1)==shape(cross_A,1)",
+               "all(arg3[i]==nodes1[i] for i in range(len(nodes1))) and all(arg4[j]==nodes2[j] for j in range(len(nodes2)))",
+               "all(arg1[i,j]==cross_A[i,j] for i in range(shape(cross_A,0)) for j in range(shape(cross_A,1)))"]})
+_c.call_facts = dict(_ASTYPE)
 
 # ============================================================================ InteractingNetworks: cross transitivity / clustering
 # region requires (all four): Network.adjacency (setter) rejects non-square input and sets self.N; getter = sp_A.toarray()
@@ -93,13 +103,17 @@ _uses("InteractingNetworks.cross_transitivity[uses]", _IN, "InteractingNetworks.
 
 # kernel(A, norm, nodes1, nodes2, cross_clustering)
 # call fact: InteractingNetworks.cross_degree(self, l1, l2) = row sums of cross_adjacency(l1, l2): one entry per node of l1
-# assumed: shape(cross_clustering,0)==len(nodes1) (np.zeros_like(nodes1, ...) is not modelled); node index ranges
+# NumPy semantics assumed for np.zeros_like(x, dtype=...): zeros with the shape of x
+# assumed: node index ranges (caller's lists)
 _c = _uses("InteractingNetworks.cross_local_clustering[uses]", _IN, "InteractingNetworks.cross_local_clustering", ("C11", "C04", "C20"),
            dict(_ADJ_IN, nodes1="arr:int32:1", nodes2="arr:int32:1"), _ADJ_RQ,
-           {"_cross_local_clustering": _A0 + ["len(arg1)==len(arg2)", "len(arg2)==len(nodes1) and len(arg3)==len(nodes2)",
+           {"_cross_local_clustering": _A0 + ["len(arg1)==len(arg2)", "len(arg4)==len(arg2)",
+                                              "len(arg2)==len(nodes1) and len(arg3)==len(nodes2)",
                                               "all(arg0[a,b]==self.adjacency[a,b] for a in range(self.N) for b in range(self.N))",
                                               "all(arg2[i]==nodes1[i] for i in range(len(nodes1))) and all(arg3[j]==nodes2[j] for j in range(len(nodes2)))"]})
-_c.call_facts = {"InteractingNetworks.cross_degree": {"returns": "arr:int64:1", "ensures": ["shape(result,0)==shape(arg1,0)"]}}
+_c.call_facts = {"InteractingNetworks.cross_degree": {"returns": "arr:int64:1", "ensures": ["shape(result,0)==shape(arg1,0)"]},
+                 "np.zeros_like": {"returns": "arr:float64:1", "ensures": ["shape(result,0)==shape(arg0,0)",
+                                                                           "all(result[i]==0 for i in range(shape(arg0,0)))"]}}
 
 # kernel(A, nsi_cc, nodes1, nodes2, node_weights)     A = adjacency + identity
 # region requires: Network.node_weights (setter) rejects a weight vector whose length is not self.N
@@ -123,3 +137,63 @@ _c = _uses("InteractingNetworks.nsi_cross_transitivity[uses]", _IN, "Interacting
                                               "all(arg0[a,b]==self.adjacency[a,b]+ite(a==b,1,0) for a in range(self.N) for b in range(self.N))",
                                               "all(arg3[a]==self.node_weights[a] for a in range(self.N))"]})
 _c.call_facts = dict(_EYE)
+
+# ============================================================================ funcnet: CouplingAnalysis
+_CA = "funcnet/coupling_analysis.py"
+# kernel(similarity_matrix, lag_matrix, N)
+# region requires: CouplingAnalysis.__init__ sets self.N = self.data.shape[1]
+# assumed: shape(similarity_matrix)==(N,N), shape(lag_matrix)==(N,N) and -127<=lag<=127 (both matrices are handed in by
+#   the caller and never compared with self.N)
+_uses("CouplingAnalysis.symmetrize_by_absmax[uses]", _CA, "CouplingAnalysis.symmetrize_by_absmax", ("C10", "C20"),
+      {"self.N": "int", "similarity_matrix": "arr:float64:2", "lag_matrix": "arr:int64:2"}, ["self.N>=0"],
+      {"_symmetrize_by_absmax": ["arg2==self.N and arg2>=0", "len(arg0)==len(similarity_matrix) and len(arg1)==len(lag_matrix)",
+                                 "shape(arg0,1)==shape(similarity_matrix,1) and shape(arg1,1)==shape(lag_matrix,1)",
+                                 "all(arg0[a,b]==similarity_matrix[a,b] for a in range(shape(arg0,0)) for b in range(shape(arg0,1)))",
+                                 "all(arg1[a,b]==lag_matrix[a,b] for a in range(shape(arg1,0)) for b in range(shape(arg1,1)))"]})
+
+# kernel(array, N, tau_max, corr_range)
+# NumPy semantics assumed for numpy.empty(shape, dtype=...): an array of that shape
+# assumed: corr_range>=1 (T - tau_max is not checked: tau_max == T gives corr_range == 0 and the kernels divide by it);
+#   tau_max<=127 for lag_mode 'max' (int8 lags; not checked); tau_max<=2147483646
+_c = _uses("CouplingAnalysis.cross_correlation[uses]", _CA, "CouplingAnalysis.cross_correlation", ("C10", "C20"),
+           {"self.data": "arr:float64:2", "tau_max": "int", "lag_mode": "obj"}, [],
+           {_k: ["arg1==shape(self.data,1) and arg1>=0", "arg2==tau_max and arg2>=0", "arg3==shape(self.data,0)-tau_max",
+                 "len(arg0)==arg2+1", "shape(arg0,0)==arg2+1 and shape(arg0,1)==arg1 and shape(arg0,2)==arg3"]
+            for _k in ("_cross_correlation_max", "_cross_correlation_all")}, total="<=1")
+_c.call_facts = {"numpy.empty": {"returns": "arr:float32:3", "ensures": [
+    "shape(result,0)==arg0[0] and shape(result,1)==arg0[1] and shape(result,2)==arg0[2]"]}}
+
+# kernel(array, dim, T, dim_x, dim_y, k)           (static method; `array` is rebound by `array = array.astype(FIELD)`)
+# NumPy semantics assumed for ndarray.astype: the result has the shape of the receiver
+# assumed: dim>=1, T>=1, k>=0 (caller's array / parameter, never checked); dim_x>=1, dim_y>=1, dim_x+dim_y<=dim
+#   (computed from the content of xyz: positions of the last 0 and the last 1)
+_c = _uses("CouplingAnalysis.get_nearest_neighbors[uses]", _CA, "CouplingAnalysis.get_nearest_neighbors", ("C10", "C20"),
+           {"array": "arr:float64:2", "xyz": "arr:int64:1", "k": "int", "standardize": "bool"}, [],
+           {"_get_nearest_neighbors": ["arg5==k", "len(arg0)==arg1", "shape(arg0,0)==arg1 and shape(arg0,1)==arg2"]})
+_c.call_facts = {"array.astype": {"returns": "arr:float32:2", "ensures": [
+    "shape(result,0)==shape(array,0) and shape(result,1)==shape(array,1)"]}}
+
+
+# ============================================================================ climate: MutualInfoClimateNetwork
+def _usesv(name, file, method, props, inputs, requires, calls, total="==1", region="body"):
+    """_uses with the slice / view / `.T` model of pvc/npvec.py switched on"""
+    cnt = "+".join(f"count('{k}')" for k in calls)
+    c = K(name, file, lang="py", func=method, props=props, py_mode=True, vectors=True, inputs=inputs, requires=requires,
+          asserts={"call:" + k: v for k, v in calls.items()}, count_calls=tuple(calls), ensures=[f"{cnt}{total}"],
+          checks=("shape",))
+    c.region = region
+    return c
+
+
+# kernel(anomaly, n_samples, N, n_bins, scaling, range_min)      anomaly is the transposed copy: (index, time)
+# assumed: n_bins>=1 (parameter, default 32); N*N, N*n_samples, N*n_bins, n_bins*n_bins <= INT32_MAX (sizes of the data set)
+_usesv("MutualInfoClimateNetwork._cython_calculate_mutual_information[uses]", "climate/mutual_info.py",
+       "MutualInfoClimateNetwork._cython_calculate_mutual_information", ("C20", "C10"),
+       {"anomaly": "arr:float64:2", "n_bins": "int", "self.silence_level": "int"}, [],
+       {"mutual_information": ["arg1>=0 and arg2>=0",
+                               "arg3==n_bins", "len(arg0)==arg2",
+                               "shape(arg0,0)==arg2 and shape(arg0,1)==arg1",
+                               # scaling>=0: Python raises ZeroDivisionError for range_max == range_min (no call
+                               # then); the engine's division is total, hence the guard
+                               "implies(range_max!=range_min, arg4>=0)",
+                               "all(arg0[a,b]>=arg5 for a in range(arg2) for b in range(arg1))"]})
